@@ -34,6 +34,43 @@ CHECKS = {
     'C10': (MC, 'explicit-state search over call histories with generation-event counters (builtins.compile, do_codegen, do_compile observed from outside the repository)',
             'All histories of the stated shapes over operators x key patterns x coefficient types are executed on fresh algebras; the invariant (no generation for a cached label, each label generated at most once, caches monotone) is evaluated on every transition.',
             'Assumes every generation path ends in builtins.compile from a kingdon frame (un-attributed compiles are counted and reported).', '4 C10'),
+    'C06': (EX, 'bounded exhaustive enumeration of programs x generic point evaluation of optimised function vs literal composition',
+            'sw/proj/normsq generated functions and the compositions a*b*~a, (a|b)*~b, a*~a are run on distinct indeterminates and compared as polynomials; a dropped blade must have an identically zero reference polynomial.',
+            'Trusts C02-C04 for gp/ip/reverse.', '4 C06'),
+    'C07': (EX, 'bounded exhaustive enumeration of key patterns x (generic point of the fraction field + exhaustive Fraction grid) against an exact linear-solve oracle',
+            'x*inv(x) = inv(x)*x = 1 is decided as an identity of rational functions per pattern, and on every grid point; ZeroDivisionError is accepted only where exact Gauss elimination finds no inverse.',
+            'Reference products by kverif.oracle; dense operands in d>=5 and floats near singularity are out of reach.', '4 C07'),
+    'C08': (EX, 'bounded exhaustive enumeration of storage layouts (permutations x zero paddings) per operator and base operand, metamorphic oracle',
+            'Every layout of every base operand up to the bound is run through every operator and compared coefficient-wise with the canonical sparse layout on generic coefficients.',
+            'sqrt/norm/exp only inside the domain of C19.', '4 C08'),
+    'C11': (EX, 'bounded exhaustive enumeration of programs (expression trees as source text, complete to depth 2) registered numerically and symbolically vs direct evaluation',
+            'Every expression of the documented grammar up to depth 2 is compiled, registered and compared with plain evaluation on several argument layouts; constructs outside the grammar may raise but not differ.',
+            'Direct evaluation is the reference; known findings for symbolic registration are listed in known_findings.json.', '4 C11'),
+    'C12': (EX, 'bounded exhaustive enumeration of operators x key patterns x all symbolic/numeric partitions, three evaluation routes vs numeric evaluation',
+            'For every partition of the stored coefficients into symbols and numbers the symbolic result is evaluated by keyword call, positional call and sympy substitution and compared with the numeric operator.',
+            'Numeric evaluation is the reference (C02-C08); two rational assignments per case.', '4 C12'),
+    'C13': (EX, 'bounded exhaustive enumeration of option settings (ordered by deviations from the default) x operators x grade-block patterns, differential oracle against default options',
+            'All 23 non-default settings of {cse, graded, codegen_symbolcls, wrapper} are compared with the default algebra; graded mode additionally checked for complete grades and chained use; violations are reduced to minimal option sets.',
+            'Default-options algebra is the reference.', '4 C13'),
+    'C14': (EX, 'bounded exhaustive enumeration of custom bases / start indices x operators x blades, oracle = relabelling map into the word algebra; all ordered algebra pairs for rejection',
+            'phi(op_custom(x,y)) == op_ref(phi x, phi y) on all blade pairs (complete by bilinearity) and small Fraction-valued subsets; every ordered pair of algebras with different metric or basis must be rejected.',
+            'Reference = kverif.oracle; asmatrix in custom bases is a recorded finding.', '4 C14'),
+    'C15': (EX, 'bounded exhaustive enumeration of construction forms x key subsets/orders x blade spellings x accessors',
+            'Every construction form is read back through every accessor and every spelling; invalid inputs must raise.', 'Oracle = the dict of supplied coefficients.', '4 C15'),
+    'C16': (EX, 'bounded exhaustive enumeration of operand kinds on either side of every infix operator, array shapes x containers x index expressions',
+            'All (left kind, right kind) pairs for the 9 infix operators; op(X,Y)[idx] == op(X[idx],Y[idx]) for every operator, shape, container and index expression; setitem before/after snapshots.',
+            'Named operators on plain multivectors are the reference.', '4 C16'),
+    'C17': (MC, 'explicit-state BFS over the values reachable through the public Polynomial/RationalPolynomial operators (state = structural form), invariant = denotation homomorphism into the fraction field',
+            'All values reachable in 3 (quick) / 4 (thorough) operator applications from the atoms are generated; every transition is executed on the implementation and compared with exact rational-function arithmetic.',
+            'Trusts kverif.ring.R; mixing the two classes and x**0 are not judged.', '4 C17'),
+    'C18': (EX, 'bounded exhaustive enumeration of signatures/bases x blade pairs (complete by bilinearity) and of linear expressions x key patterns x input kinds for expr_as_matrix',
+            'Homomorphism, first column and frommatrix round trip on all blade pairs; A.coeffs(x) == coeffs(f(R,x)) at rational points for every expression, pattern and kind of R.', 'Blade table from C01.', '4 C18'),
+    'C19': (EX, 'bounded exhaustive enumeration of operand patterns x value grids x coefficient types inside the stated domains, series / defining identities as oracle',
+            'Outer exponentials against the finite wedge sum on the generic point; exp against a 40-term power series for every enumerated simple element; sqrt, powers, norms against their identities.',
+            'Reference algebra = kverif.oracle; tolerance 1e-9.', '4 C19'),
+    'C20': (MC, 'explicit-state search over drag-event sequences on live widgets for every enumerated scene, decoded by a literal port of graph.js',
+            'Every scene up to the leaf bound is rendered and decoded; for scenes with draggable points all drag sequences up to the depth bound are applied through the traitlet and the live multivectors re-read.',
+            'kverif.frontend is a port of graph.js decode/encode; ganja.js rendering itself is out of scope.', '4 C20'),
 }
 
 PENDING = {
